@@ -1,6 +1,286 @@
 import Fabio.Driver.Proto
+import Fabio.Model.C11
 namespace Fabio.Driver.C11
-open Lean Fabio.Driver
+open Lean Fabio.Driver Fabio.Model.C11
 
-def streams : List (String × Handler) := []
+/-! ### JSON helpers -/
+
+def arrOf (j : Json) (k : String) : List Json :=
+  match j.getObjVal? k with
+  | .ok (.arr a) => a.toList
+  | _ => []
+
+def strOf (j : Json) (k : String) : String := (j.getObjValAs? String k).toOption.getD ""
+def boolOf (j : Json) (k : String) : Bool := (j.getObjValAs? Bool k).toOption.getD false
+def intOf (j : Json) (k : String) (d : Int := 0) : Int := (j.getObjValAs? Int k).toOption.getD d
+
+def strList (js : List Json) : List String := js.filterMap fun j => j.getStr?.toOption
+
+/-! ### c11.select -/
+
+/-- The names a certificate spells, in the order `BuildNameToCertificate` visits them; none for a leaf that
+does not parse. -/
+def certOf (i : Nat) (j : Json) : Cert :=
+  if boolOf j "bad" then ⟨i, []⟩ else
+  let cn := strOf j "cn"
+  let sans := strList (arrOf j "sans")
+  ⟨i, ((if cn.isEmpty then [] else [cn]) ++ sans).map String.toList⟩
+
+def certSetOf (js : List Json) : CertSet := js.zipIdx.map fun (j, i) => certOf i j
+
+def answerPair : Answer → Int × String
+  | .cert c => (c.id, "")
+  | .noCert => (-1, "")
+  | .errNoCerts => (-1, "nocerts")
+
+def pairJson (p : Int × String) : Json := Json.mkObj [("i", p.1), ("e", p.2)]
+
+def implPairs (impl : Json) : Option (List (Int × String)) :=
+  match impl with
+  | .arr a => some (a.toList.map fun j => (intOf j "i" (-99), strOf j "e"))
+  | _ => none
+
+def hasUpper (cs : CertSet) : Bool := cs.any fun c => c.names.any fun n => n.any fun ch => 'A' ≤ ch && ch ≤ 'Z'
+
+def selectH : Handler := fun inp impl => do
+  let cs : CertSet := if boolOf inp "set" then certSetOf (arrOf inp "certs") else []
+  let strict := boolOf inp "strict"
+  let reqs := (strList (arrOf inp "reqs")).map String.toList
+  let model := reqs.map fun r => answerPair (getCertificate cs r strict)
+  let spec := reqs.map fun r => answerPair (specAnswer cs r strict)
+  let branches := reqs.map fun r => branch cs r strict
+  let ip := implPairs impl
+  let agree := ip == some model
+  let specOk := ip == some spec
+  let interesting := fun (b : String) => b == "exact" || b == "wildcard-1" || b == "wildcard-n"
+  let firstBad : Option String :=
+    match ip with
+    | some l => ((l.zip spec).zip branches).findSome? fun ((a, b), br) => if a != b then some br else none
+    | none => none
+  let tag := match firstBad with
+    | some br => br ++ (if hasUpper cs then "+certcase" else "")
+    | none => branches.head?.getD "noreq"
+  return ({ model := Json.arr (model.map pairJson).toArray, agree := agree, spec := specOk,
+            nontrivial := cs.length ≥ 2 && branches.any interesting, tag := tag } : Verdict).toJson
+
+/-! ### c11.watch -/
+
+def fileOf (j : Json) : Model.C11.Name × FileC :=
+  let c := intOf j "c" (-1)
+  let k := intOf j "k" (-1)
+  ((strOf j "name").toList, ⟨if c < 0 then none else some c.toNat, if k < 0 then none else some k.toNat⟩)
+
+/-- material: `none` = nil map; otherwise the files in canonical (name) order, so that `=` is `reflect.DeepEqual` -/
+abbrev Mat := Option Blocks
+
+def matOf (j : Json) : Mat :=
+  if boolOf j "nil" then none
+  else some (((arrOf j "files").map fileOf).mergeSort (fun a b => lexLe a.1 b.1))
+
+/-- `loadCertificates` on a material (a nil map ranges over nothing and yields no certificates, no error) -/
+def mkCerts (m : Mat) : Option (List Nat) :=
+  match m with
+  | none => some []
+  | some b => (loadCertificates b (b.map (·.1))).map (·.map (·.2))
+
+def scriptOf (mats : Array Mat) (js : List Json) : List (LoadResult Mat) :=
+  js.map fun j =>
+    if boolOf j "err" then .err else
+    match mats[(intOf j "mat").toNat]? with
+    | some m => .blocks m
+    | none => .err
+
+structure WatchObs where
+  calls : Int
+  pubs : List (List Nat)
+  returned : Bool
+  lastTag : String
+  sawBad : Bool
+
+def isSleep {M S} : Out M S → Bool
+  | .sleep _ => true
+  | _ => false
+
+def stepTag (st : St Mat) : LoadResult Mat → String
+  | .err => "load-error"
+  | .blocks m => if m = st.last then "unchanged" else
+    match mkCerts m with
+    | none => "bad-material"
+    | some _ => "published"
+
+/-- Run the machine against `script[min(i, len-1)]` up to its first sleep / its return; more than `limit`
+loader invocations without either is a spin. -/
+def observe (sleepOnMakeErr : Bool) (refresh : Int) (script : Array (LoadResult Mat)) (limit : Nat) : WatchObs :=
+  let rec go (fuel : Nat) (i : Nat) (st : St Mat) (pubs : List (List Nat)) (sawBad : Bool) : WatchObs :=
+    match fuel with
+    | 0 => ⟨-1, pubs.reverse, false, "spin", sawBad⟩
+    | fuel+1 =>
+      let r := script[min i (script.size - 1)]?.getD .err
+      let (st', outs) := step sleepOnMakeErr mkCerts refresh st r
+      let pubs' := outs.foldl (fun acc o => match o with | .publish _ s => s :: acc | _ => acc) pubs
+      let t := stepTag st r
+      let bad := sawBad || t == "bad-material" || t == "load-error"
+      if st'.returned then ⟨i+1, pubs'.reverse, true, "returned-once", bad⟩
+      else if outs.any isSleep then ⟨i+1, pubs'.reverse, false, "sleep-" ++ t, bad⟩
+      else go fuel (i+1) st' pubs' bad
+  go (limit + 1) 0 ⟨none, false⟩ [] false
+
+def natLists (j : Json) (k : String) : List (List Nat) :=
+  (arrOf j k).map fun a => match a with
+    | .arr xs => xs.toList.map fun x => (x.getInt?.toOption.getD (-1)).toNat
+    | _ => []
+
+def watchH : Handler := fun inp impl => do
+  let mats := ((arrOf inp "mats").map matOf).toArray
+  let script := (scriptOf mats (arrOf inp "script")).toArray
+  if script.size == 0 then throw "empty script"
+  let refresh := intOf inp "refresh_ms" * 1000000
+  let o := observe true refresh script (script.size + 64)
+  let model := Json.mkObj [("calls", o.calls), ("pubs", Json.arr (o.pubs.map fun p => Json.arr (p.map fun (n : Nat) => Json.num n).toArray).toArray),
+                           ("returned", o.returned)]
+  let iCalls := intOf impl "calls" (-99)
+  let iPubs := natLists impl "pubs"
+  let iRet := boolOf impl "returned"
+  let agree := iCalls == o.calls && iPubs == o.pubs && iRet == o.returned
+  -- the property on the implementation's own output: no spin (between two loader invocations a sleep — which
+  -- ends the observation — or a publication), and only sets made from usable material are ever published
+  let goodSets := mats.toList.filterMap mkCerts
+  let spec := iCalls != -1 && iCalls ≤ iPubs.length + 1 && iPubs.all (fun p => goodSets.contains p)
+  return ({ model := model, agree := agree, spec := spec,
+            nontrivial := o.sawBad || o.pubs.length ≥ 2, tag := o.lastTag } : Verdict).toJson
+
+/-! ### c11.watch_gap -/
+
+structure GapRec where
+  slept : Bool
+  pub : Option (List Nat)
+deriving BEq
+
+def gapsOf (refresh : Int) (script : Array (LoadResult Mat)) (upto : Nat) : List (GapRec × String) × Bool :=
+  let rec go (fuel : Nat) (i : Nat) (st : St Mat) (acc : List (GapRec × String)) : List (GapRec × String) × Bool :=
+    match fuel with
+    | 0 => (acc.reverse, false)
+    | fuel+1 =>
+      let r := script[min i (script.size - 1)]?.getD .err
+      let (st', outs) := step true mkCerts refresh st r
+      let pub := outs.findSome? fun o => match o with | .publish _ s => some s | _ => none
+      let acc' := (⟨outs.any isSleep, pub⟩, stepTag st r) :: acc
+      if st'.returned then (acc'.reverse, true) else go fuel (i+1) st' acc'
+  go (upto - 1) 0 ⟨none, false⟩ []
+
+def implGaps (j : Json) : List GapRec × Bool :=
+  ((arrOf j "gaps").map fun g =>
+    ⟨boolOf g "slept", match g.getObjVal? "pub" with
+      | .ok (.arr xs) => some (xs.toList.map fun x => (x.getInt?.toOption.getD (-1)).toNat)
+      | _ => none⟩,
+   boolOf j "returned")
+
+structure GapRes where
+  agree : Bool
+  bad : Option String
+  sawBad : Bool
+  n : Nat
+
+def gapOne (upto : Nat) (sj ij : Json) : GapRes :=
+  let mats := ((arrOf sj "mats").map matOf).toArray
+  let script := (scriptOf mats (arrOf sj "script")).toArray
+  let mres := gapsOf (intOf sj "refresh_ms" * 1000000) script upto
+  let mg : List (GapRec × String) := mres.1
+  let ires := implGaps ij
+  let ig : List GapRec := ires.1
+  let agree := mg.map (fun p => p.1) == ig && mres.2 == ires.2
+  let tags : List String := mg.map (fun p => p.2) ++ List.replicate ig.length "?"
+  let badGap : Option (GapRec × String) := (ig.zip tags).find? fun p => !p.1.slept && p.1.pub.isNone
+  { agree := agree, bad := badGap.map (fun p => p.2),
+    sawBad := mg.any (fun p => p.2 == "bad-material" || p.2 == "load-error"), n := mg.length }
+
+def gapH : Handler := fun inp impl => do
+  let upto := (intOf inp "upto").toNat
+  let scripts := arrOf inp "scripts"
+  let impls := match impl with | .arr a => a.toList | _ => []
+  if impls.length != scripts.length then
+    return ({ model := Json.null, agree := false, spec := true, nontrivial := false, tag := "harness-shape" } : Verdict).toJson
+  let results : List GapRes := (scripts.zip impls).map fun p => gapOne upto p.1 p.2
+  let firstBad : Option String := results.findSome? (fun r => r.bad)
+  let total : Nat := results.foldl (fun n r => n + r.n) 0
+  return ({ model := Json.mkObj [("gaps", total)], agree := results.all (fun r => r.agree), spec := firstBad.isNone,
+            nontrivial := results.any (fun r => r.sawBad),
+            tag := match firstBad with | some t => "no-sleep-after-" ++ t | none => "ok" } : Verdict).toJson
+
+/-! ### c11.race -/
+
+def ansMatches (a : Answer) (i e : Int) : Bool :=
+  match a with
+  | .cert c => i == c.id && e == 0
+  | .noCert => i == -1 && e == 0
+  | .errNoCerts => i == -1 && e == 1
+
+/-- why a recorded call is not explained by one published set within its window (`none` = explained) -/
+def callVerdict (f : CertSet → Model.C11.Name → Bool → Answer) (sets : Array CertSet)
+    (reqs : Array Model.C11.Name) (strict : Bool) (rec : List Int) : Option String :=
+  match rec with
+  | [_, r, k, i, e, lo, hi] =>
+    let req := reqs[r.toNat]?.getD []
+    if e == 2 then some "unexpected-error"
+    else if k == -2 then some "foreign-certificate"
+    else if k ≥ 0 then
+      if k < lo || k > hi then some "set-outside-window"
+      else match sets[k.toNat]? with
+        | some cs => if ansMatches (f cs req strict) i e then none else some "wrong-certificate-for-set"
+        | none => some "set-outside-window"
+    else
+      let ks := (List.range (hi.toNat + 1)).filter fun k => lo.toNat ≤ k
+      if ks.any fun k => match sets[k]? with
+          | some cs => ansMatches (f cs req strict) (-1) e
+          | none => false
+      then none else some "no-certificate-unexplained"
+  | _ => some "harness-shape"
+
+def monotone (calls : List (List Int)) : Bool :=
+  let rec go (seen : List (Int × Int)) : List (List Int) → Bool
+    | [] => true
+    | rec :: rest =>
+      match rec with
+      | t :: _ :: k :: _ =>
+        if k < 0 then go seen rest else
+        match seen.lookup t with
+        | some k0 => if k < k0 then false else go ((t, k) :: seen) rest
+        | none => go ((t, k) :: seen) rest
+      | _ => false
+  go [] calls
+
+def raceH : Handler := fun inp impl => do
+  let strict := boolOf inp "strict"
+  let sets : Array CertSet := (([] : CertSet) :: (arrOf inp "sets").map fun s =>
+      match s with | .arr a => certSetOf a.toList | _ => []).toArray
+  let reqs := ((strList (arrOf inp "reqs")).map String.toList).toArray
+  let calls : List (List Int) := (arrOf impl "calls").map fun c =>
+    match c with | .arr a => a.toList.map fun x => x.getInt?.toOption.getD (-99) | _ => []
+  let hss : List (List Int) := (arrOf impl "handshakes").map fun c =>
+    match c with | .arr a => a.toList.map fun x => x.getInt?.toOption.getD (-99) | _ => []
+  let last := sets[sets.size - 1]?.getD []
+  let hsOk (f : CertSet → Model.C11.Name → Bool → Answer) (h : List Int) : Bool :=
+    match h with
+    | [r, i] => match f last (reqs[r.toNat]?.getD []) strict with
+      | .cert c => i == c.id
+      | _ => i == -1
+    | _ => false
+  let mBad := calls.findSome? (callVerdict getCertificate sets reqs strict)
+  let sBad := calls.findSome? (callVerdict specAnswer sets reqs strict)
+  let mono := monotone calls
+  let mHs := hss.all (hsOk getCertificate)
+  let sHs := hss.all (hsOk specAnswer)
+  let agree := mBad.isNone && mHs
+  let spec := sBad.isNone && mono && sHs
+  let overlapping := calls.any fun c => match c with
+    | [_, _, k, _, _, lo, hi] => k ≥ 0 && lo < hi
+    | _ => false
+  let tag := match sBad with
+    | some t => t
+    | none => if !mono then "set-went-backwards" else if !sHs then "handshake-presents-other-certificate" else "ok"
+  return ({ model := Json.mkObj [("calls", calls.length), ("handshakes", hss.length)], agree := agree, spec := spec,
+            nontrivial := overlapping, tag := tag } : Verdict).toJson
+
+def streams : List (String × Handler) :=
+  [("c11.select", selectH), ("c11.watch", watchH), ("c11.watch_gap", gapH), ("c11.race", raceH)]
 end Fabio.Driver.C11
